@@ -488,6 +488,9 @@ class SchemaValidator:
         fieldnames = set()  # type: Set[str]
 
         for field in input_object.fields:
+
+            self.check_valid_name(field.name)
+
             if field.name in fieldnames:
                 self.add_error(
                     'Duplicate field "%s" on "%s"' % (field.name, input_object)
